@@ -37,3 +37,15 @@ Theorem C10_stop_on_first : forall c o t, wf c -> fst (run sched_params c o) = R
   cont c = false /\ ref c t = None /\ exists h, hist (snd (run sched_params c o)) = EFinish t None :: h.
 Proof. exact (fun c o t H => raise_means_own_failure sched_params c H eq_refl o t). Qed.
 Print Assumptions C10_stop_on_first.
+
+(* ---- the theorems above take "the task failed" as what the coordinator is told.  What it is told is whatever the runner hands back:
+   with the test read from process_completed_tasks, every exception object a runner can hand back — SystemExit from a task that
+   calls sys.exit() included — is booked as that task's failure, never as an "unexpected result" raised out of run_tasks (defect D15,
+   repaired in d186224, was the Exception-only test). *)
+Require Import LT.Proofs.BookProofs.
+Theorem C10_every_raised_outcome_is_a_failure : forall h, h <> HResult -> book fail_test_src h = BFailed.
+Proof. exact raised_is_failure. Qed.
+Print Assumptions C10_every_raised_outcome_is_a_failure.
+Theorem C10_exception_only_test_refuted : exists h, h <> HResult /\ book FailException h = BUnexpected.
+Proof. exact exception_only_refuted. Qed.
+Print Assumptions C10_exception_only_test_refuted.
